@@ -66,6 +66,11 @@ def node_xml(nid, refs, nest):
 def graph_doc(defs, where, nest):
     nodes = ''.join(node_xml(i, r, nest) for i, r in defs)
     if where == 'library':
+        # the nodes may be spread over several <library_nodes> elements (where the cut falls depends on the definitions only)
+        cut = sum(len(i) + len(r) for i, r in defs) % (len(defs) + 1) if len(defs) > 1 and sum(len(r) for i, r in defs) % 3 == 0 else None
+        if cut is not None and 0 < cut < len(defs):
+            nodes = ''.join(node_xml(i, r, nest) for i, r in defs[:cut]) + '</library_nodes><library_cameras/><library_nodes>' + \
+                ''.join(node_xml(i, r, nest) for i, r in defs[cut:])
         body = '<library_nodes>%s</library_nodes><library_visual_scenes><visual_scene id="vs"/></library_visual_scenes>' % nodes
     else:
         body = '<library_visual_scenes><visual_scene id="vs">%s</visual_scene></library_visual_scenes>' % nodes
